@@ -68,6 +68,7 @@ FIRST_MISSED = {
     "C16-6": "no check reported it -> RFULL (source): the exact-length reads consume the transport itself, never a reader created on the way",
     "C14-5": "no check reported it -> WIN-1: an accepted (acknowledged) data packet is always delivered; C14 imports C01",
     "C18-5": "own property silent (reported by C12 EXIT and TICK-2) -> C18 shares the TICK rules",
+    "C20-5": "no check reported it -> TMO-3: the sample of a first transmission is overwritten unconditionally with this call's time.Now()",
     "C06-3": "no check reported it -> RATELIMIT: once lastResend is refreshed the packets are transmitted",
 }
 
